@@ -321,7 +321,7 @@ def stats(nodes):
 
 class Profile:
     def __init__(self, depth=3, sibs=4, twin=False, lists=1.0, defs=1.0, spaced=False, verb=1.0,
-                 math=1.0, comments=1.0, strict_sep=False, flat=0, ws=0.0, lines=0.0, plain=False):
+                 math=1.0, comments=1.0, strict_sep=False, flat=0, ws=0.0, lines=0.0, plain=False, benign_verbatim=False):
         self.depth = depth
         self.sibs = sibs
         self.twin = twin
@@ -333,6 +333,7 @@ class Profile:
         self.comments = comments
         self.strict_sep = strict_sep   # C14: after every command no letter, *, [, {
         self.flat = flat
+        self.benign_verbatim = benign_verbatim   # hostile bodies only at top level / in environment bodies
         self.plain = plain  # C07.2: text without [ ], benign comments
         self.ws = ws        # probability that a text node is a single blank run
         self.lines = lines  # probability that a text node is a line break (+ indentation)
@@ -599,7 +600,7 @@ class Gen:
         args = []
         if name == 'lstlisting' and self.chance(0.4):
             args.append(Arg('[', [Node('text', text='language=Python')]))
-        if ctx.hostile_ok:
+        if ctx.hostile_ok or not self.p.benign_verbatim:
             n = self.int(0, 6)
             body = ''.join(self.pick(HOSTILE_ATOMS) for _ in range(n))
             body = sanitize_verbatim(body, name)
